@@ -283,6 +283,8 @@ sim::RunResult run(const Json& sc) {
   for (auto& hj : sc["handlers"].arr()) {
     const std::string hname = hj.as_str();
     ReadOpts ro; ro.flags = flags; ro.handler = handler_id(hname);
+    // every notification consumes input, and the input is passed over at most twice (bounds first): a generous linear bound
+    ro.max_notifications = 16 * (long)bytes.size() + 4096;
     bump(st, "handler." + hname);
     // ---------------- path (i): in-memory, exact-size heap buffer
     ReadOutcome a;
@@ -297,8 +299,10 @@ sim::RunResult run(const Json& sc) {
     else if (a.status == "Error" || a.status == "UnsupportedError") bump(st, "rejected_unlocated");
     if (a.dup_items) bump(st, "probe.dup_item_notifications", a.dup_items);
     st.set("notifications", st["notifications"].as_int(0) + a.notifications);
-    if (sa.exited)
-      v.set("HANG", "string/" + hname, "ReadNLString did not return within the step budget");
+    const bool cut_short = sa.exited || a.status == "runaway";
+    if (cut_short)
+      v.set("HANG", "string/" + hname, a.status == "runaway" ? "ReadNLString keeps notifying the handler (" + std::to_string(a.notifications) + " notifications for " + std::to_string(bytes.size()) + " bytes of input)"
+                                                               : "ReadNLString did not return within the step/allocation budget");
     else if (!allowed_status(a.status))
       v.set("UNEXPECTED_EXCEPTION", a.status + "/" + hname, "ReadNLString (" + hname + " handler) threw " + a.status + ": " + a.msg);
     if (!a.viol_class.empty())
@@ -309,6 +313,7 @@ sim::RunResult run(const Json& sc) {
       else v.set("VALID_REJECTED", hname + "/" + skeleton(a.msg.compare(0, 6, "@/m.nl") == 0 ? a.msg.substr(6) : a.msg, 50),
                  "generated valid " + fmtname + " file rejected by " + hname + " handler: " + a.status + ": " + a.msg);
     }
+    if (cut_short) break;      // the verdict is HANG already; the other handlers / paths would only burn the same budget again
     if (path == "string") continue;
 
     // ---------------- path (ii) / (iii)
@@ -341,7 +346,7 @@ sim::RunResult run(const Json& sc) {
     fp = sim::fnv1a(b.outcome_key(), fp); fp = sim::fnv1a(&b.trace_hash, 8, fp); fp = sim::fnv1a(&sb.hash, 8, fp);
     ts = sim::fnv1a(path + "=" + b.status, ts);
     bump(st, "outcome2." + b.status);
-    bool spun = b.status == "spin" || (sb.exited && sb.step_budget);
+    bool spun = b.status == "spin" || b.status == "runaway" || (sb.exited && sb.step_budget);
     if (label == "shrink") {
       // separate batch: the only verdict is "terminates without memory error"
       if (spun)
